@@ -23,5 +23,7 @@ for d in sorted(glob.glob('/verif/seeded/*/meta.json')):
     caught = cr.get('caught')
     how = "NEEDS-PORT" if 'note' in cr else ("`./check %s`" % m['property'] if caught else "**missed** by `./check %s`" % m['property'])
     conc = "yes" if cr.get('with_concrete_input') else ("—" if not caught else "no (broken obligation only)")
+    if m.get('moot_after_fix') and not caught:
+        how = "not a violation any more (%s); `./check %s` rightly quiet" % (m['moot_after_fix']['fix'].split(' ')[0], m['property']); conc = "n/a"
     port = " (ported)" if m.get('patch_used_for_check') == 'patch.ported.diff' else ""
     print(f"| {name}{port} | {(m.get('summary') or '')[:110].replace('|','/')} | {(m.get('needs_to_manifest') or '')[:90].replace('|','/')} | {how} | {conc} |")
